@@ -609,6 +609,50 @@ func relayLayerCancelCase(t *testing.T, r *Recorder, which string) {
 	}
 }
 
+// relayLayerSendWhileRecvIdle: the receive function of a connection is parked on an idle mailbox (as
+// it is during the Go-Back-N handshake, and whenever the peer has nothing to say); the first attempt
+// of a send fails, the stream is re-created, the payload goes out. The send must not wait for the
+// parked receive. Real time (a goroutine waiting for a mutex stops a bubble's clock): one retry wait
+// of the mailbox layer, about 2 s.
+func relayLayerSendWhileRecvIdle(r *Recorder, client bool) {
+	relay := NewFakeRelay()
+	var x, y [64]byte
+	x[0], y[0] = 5, 6
+	ctx, cancel := context.WithCancel(context.Background())
+	defer cancel()
+	relay.NewCipherBox(ctx, &hashmailrpc.CipherBoxAuth{Desc: &hashmailrpc.CipherBoxDesc{StreamId: x[:]}})
+	relay.NewCipherBox(ctx, &hashmailrpc.CipherBoxAuth{Desc: &hashmailrpc.CipherBoxDesc{StreamId: y[:]}})
+	relay.Fault = func(op, sid string, n int) RelayFault {
+		if op == "send" && sid == sidKey(y[:]) && n == 0 {
+			return RelayFault{StreamErr: true}
+		}
+		return RelayFault{}
+	}
+	var send func(context.Context, []byte) error
+	var recv func(context.Context) ([]byte, error)
+	if client {
+		c := mailbox.VBareClientConn(ctx, relay, x, y)
+		send, recv = c.VSend, c.VRecv
+	} else {
+		c := mailbox.VBareServerConn(ctx, relay, x, y)
+		send, recv = c.VSendToStream, c.VRecvFromStream
+	}
+	go recv(ctx) // parks: nothing ever arrives in mailbox x
+	time.Sleep(300 * time.Millisecond)
+	done := make(chan error, 1)
+	go func() { done <- send(ctx, []byte{7}) }()
+	name := fmt.Sprintf("relay-layer-send-while-recv-idle:client=%v", client)
+	r.Case(name, true, "relay-layer-cancel")
+	select {
+	case err := <-done:
+		if err != nil {
+			r.Violate("C05/relay-layer-failed", "send function: "+err.Error(), name)
+		}
+	case <-time.After(20 * time.Second):
+		r.Violate("C05/relay-layer-send-waits-for-receive", fmt.Sprintf("client side: %v; the receive function is parked on an idle mailbox, the first attempt of a send fails: the send function had not returned 20 s later (one retry wait is 2 s) - with the peer silent, as during the Go-Back-N handshake, nothing will ever release it", client), name)
+	}
+}
+
 func TestC05(t *testing.T) {
 	r := NewRecorder(t, "C05")
 	defer r.Close(t)
@@ -618,6 +662,8 @@ func TestC05(t *testing.T) {
 	for _, which := range []string{"server-recv", "server-send", "client-recv", "client-send"} {
 		relayLayerCancelCase(t, r, which)
 	}
+	relayLayerSendWhileRecvIdle(r, true)
+	relayLayerSendWhileRecvIdle(r, false)
 	scs := c05Scenarios()
 	var mu sync.Mutex
 	idx := 0
